@@ -19,7 +19,7 @@ import pandas as pd
 
 from sim import kernel, scenes, prmspace, threads
 from sim.digest import chunk_parts, parts_digest, frame_digest, typed_diff
-from sim.minimise import ddmin
+from sim.minimise import shrink_history
 from sim.models import model_adjust, model_snapshot, get_path, set_path, leaf_paths
 
 PROP = 'C11'
@@ -443,18 +443,10 @@ def _sandbox():
     return pth
 
 
-def minimise(case, vio, sandbox):
+def shrink(vio, evaluate):
     want = vio['clause']
-
-    def fails(sub):
-        v = run_history(dict(case, ops=sub), sandbox)
-        return v is not None and v['clause'] == want
-    ops = case['ops'][:vio['pos'] + 1] if vio['op'] != 'final' else case['ops']
-    small = ddmin(ops, fails, max_runs=60)
-    v = run_history(dict(case, ops=small), sandbox)
-    if v is None:
-        small, v = case['ops'], vio
-    return _package(dict(case, ops=small), v)
+    return shrink_history(vio, evaluate, same=lambda v: v is not None and v['clause'] == want,
+                          max_runs=70)
 
 
 def replay(case):
@@ -462,6 +454,8 @@ def replay(case):
     try:
         with warnings.catch_warnings():
             warnings.simplefilter('ignore')
+            for pre in case.get('prelude', []):    # earlier histories of the same process
+                run_history(pre, sandbox)
             vio = run_history(case, sandbox)
     finally:
         shutil.rmtree(sandbox, ignore_errors=True)
@@ -554,6 +548,7 @@ def execute(run):
     try:
         with warnings.catch_warnings():
             warnings.simplefilter('ignore')
+            prelude = []
             for h in range(4):
                 frames, prm_pool = [], []
                 for _ in range(rng_scene.choice([1, 2, 2])):
@@ -584,8 +579,12 @@ def execute(run):
                                                        'flavour': f['flavour']} for f in frames],
                                            'dicts': dicts, 'ops': ops})
                 if vio is not None:
-                    out['violations'].append(minimise(case, vio, sandbox))
+                    case['prelude'] = prelude
+                    if vio['op'] != 'final':
+                        case['ops'] = ops[:vio['pos'] + 1]
+                    out['violations'].append(_package(case, vio))
                     break
+                prelude.append(case)
     finally:
         shutil.rmtree(sandbox, ignore_errors=True)
     return out
